@@ -396,24 +396,13 @@ func (n *vpNode) vpAddPeer(p peer.ID, proto protocol.ID, outbound bool) *rpcQueu
 	return q
 }
 
-// vpDrain pops every queued RPC of a peer (non-blocking) and returns them in order.
+// vpDrain takes every queued RPC out of a peer's queue in the order Pop would hand them out (urgent class first).
 func vpDrain(q *rpcQueue) []*RPC {
-	var out []*RPC
-	ctx, cancel := context.WithCancel(context.Background())
-	cancel()
-	for {
-		q.queueMu.Lock()
-		empty := q.queue.Len() == 0
-		q.queueMu.Unlock()
-		if empty {
-			return out
-		}
-		r, err := q.Pop(ctx)
-		if err != nil {
-			return out
-		}
-		out = append(out, r)
-	}
+	q.queueMu.Lock()
+	defer q.queueMu.Unlock()
+	out := append(append([]*RPC{}, q.queue.priority...), q.queue.normal...)
+	q.queue.priority, q.queue.normal = nil, nil
+	return out
 }
 
 func vpSubRPC(from peer.ID, topic string, sub bool) *RPC {
